@@ -355,17 +355,21 @@ Acyclic(s) == ~HasCycle(Result(s))
 
 \* C03: evA covers evB
 IsBuiltinImport(e) == e.e = "import" /\ e.m = "builtins"
+\* "every MODULE import the VM would trigger is present": an import event is covered by an import of the same
+\* module (which attribute of it is then reached - possibly by a dotted path - is compared where it matters:
+\* as the callee of a call, or as part of the value)
+ImportCovered(evA, x) == IsBuiltinImport(x) \/ \E j \in DOMAIN evA : evA[j].e = "import" /\ evA[j].m = x.m
 CountEv(evs, x)    == Cardinality({j \in DOMAIN evs : SameEv(evs[j], x)})
 Covers(evA, evB) ==
   \A i \in DOMAIN evB :
      IF evB[i].e = "import"
-     THEN IsBuiltinImport(evB[i]) \/ \E j \in DOMAIN evA : SameEv(evA[j], evB[i])
+     THEN ImportCovered(evA, evB[i])
      ELSE CountEv(evA, evB[i]) >= CountEv(evB, evB[i])
 \* first uncovered event (0 = none)
 FirstUncovered(evA, evB) ==
   LET bad == {i \in DOMAIN evB :
                 IF evB[i].e = "import"
-                THEN ~(IsBuiltinImport(evB[i]) \/ \E j \in DOMAIN evA : SameEv(evA[j], evB[i]))
+                THEN ~ImportCovered(evA, evB[i])
                 ELSE CountEv(evA, evB[i]) < CountEv(evB, evB[i])}
   IN IF bad = {} THEN 0 ELSE CHOOSE i \in bad : \A j \in bad : i <= j
 
